@@ -27,6 +27,7 @@ func c01Prelude() []*rt.Node {
 		as("i", I(1)), as("z", I(0)), as("big", I(math.MaxInt64)),
 		as("small", rt.Bin("-", rt.Un("-", Id("big")), I(1))),
 		as("f", rt.Float(1.5)), as("s", S("abc")), as("u", S("é")),
+		as("bad", S("caf\xe9")), as("cut", S("x\xe6\x97")), // invalid UTF-8: Latin-1 text, a truncated multi-byte character
 		as("l", rt.List(I(1), S("a"), rt.List(I(2)))), as("m", rt.Map(S("k"), I(1))),
 		as("n", rt.Nil()), as("b", rt.Bool(true)),
 	}
@@ -35,8 +36,8 @@ func c01Prelude() []*rt.Node {
 func c01Points() []PointSpec {
 	return []PointSpec{
 		{Meas: "m"},
-		{Meas: "m", Tags: map[string]string{"t1": "tv"}, Fields: map[string]any{"message": "hello 123", "fi": int64(7), "ff": 1.5, "fs": "str", "fb": true}},
-		{Meas: "", Tags: map[string]string{"t1": ""}, Fields: map[string]any{"fn": nil, "fi": int64(-1), "ff": 0.0, "fs": "", "fb": false, "fj": "[1,2]", "message": "<a><b>1</b></a>"}},
+		{Meas: "m", Tags: map[string]string{"t1": "tv"}, Fields: map[string]any{"message": "hello 123", "fi": int64(7), "ff": 1.5, "fs": "str", "fb": true, "fx": "caf\xe9"}},
+		{Meas: "", Tags: map[string]string{"t1": ""}, Fields: map[string]any{"fn": nil, "fi": int64(-1), "ff": 0.0, "fs": "", "fb": false, "fj": "[1,2]", "message": "<a><b>1</b></a>", "fx": "\xe6\x97"}},
 		{Meas: "m", Tags: map[string]string{"m": "tagm"}, Fields: map[string]any{"message": nil, "fi": nil, "fs": nil, "s": "field-s", "l": "x", "ff": math.Inf(1)}},
 	}
 }
@@ -58,7 +59,7 @@ func c01Atoms() []nodeFn {
 	add(func() *rt.Node { return S("") })
 	add(func() *rt.Node { return rt.List(I(1), S("a"), rt.List(I(2))) })
 	add(func() *rt.Node { return rt.Map(S("k"), I(1)) })
-	for _, v := range []string{"i", "z", "big", "small", "f", "s", "u", "l", "m", "n", "b", "fi", "ff", "fs", "fb", "fn", "t1", "nosuch", "message", "_"} {
+	for _, v := range []string{"i", "z", "big", "small", "f", "s", "u", "l", "m", "n", "b", "fi", "ff", "fs", "fb", "fn", "t1", "nosuch", "message", "_", "bad", "cut", "fx"} {
 		v := v
 		add(func() *rt.Node { return Id(v) })
 	}
@@ -123,7 +124,7 @@ func c01Exprs(thorough bool, yield func(s nodeFn, heavy bool)) {
 		func() *rt.Node { return Id("l") }, func() *rt.Node { return Id("m") }, func() *rt.Node { return Id("nosuch") },
 		func() *rt.Node { return rt.Index("l", I(0)) }, func() *rt.Node { return rt.Call("len", Id("s")) },
 	}
-	objs := []string{"l", "m", "s", "i", "n", "fs", "fi", "t1", "nosuch", "message", "_", "fn"}
+	objs := []string{"l", "m", "s", "i", "n", "fs", "fi", "t1", "nosuch", "message", "_", "fn", "cut", "fx"}
 	for _, o := range objs {
 		for _, k1 := range keys {
 			o, k1 := o, k1
@@ -155,6 +156,7 @@ func c01Exprs(thorough bool, yield func(s nodeFn, heavy bool)) {
 		func() *rt.Node { return rt.Nil() }, func() *rt.Node { return rt.Bool(true) },
 		func() *rt.Node { return rt.Call("len", Id("s")) }, func() *rt.Node { return rt.Slice(Id("l"), I(0), I(1), nil, false) },
 		func() *rt.Node { return rt.Call("exit") },
+		func() *rt.Node { return Id("cut") }, func() *rt.Node { return Id("fx") },
 	}
 	bnds := []nodeFn{nil,
 		func() *rt.Node { return I(0) }, func() *rt.Node { return I(1) }, func() *rt.Node { return I(-1) },
@@ -232,7 +234,7 @@ func c01ArgAlphabet() []nodeFn {
 	I, S, Id := rt.Int, rt.Str, rt.Id
 	var a []nodeFn
 	add := func(f nodeFn) { a = append(a, f) }
-	for _, v := range []string{"i", "f", "s", "u", "l", "m", "n", "b", "fi", "ff", "fs", "fb", "fn", "fj", "t1", "nosuch", "_", "message"} {
+	for _, v := range []string{"i", "f", "s", "u", "l", "m", "n", "b", "fi", "ff", "fs", "fb", "fn", "fj", "t1", "nosuch", "_", "message", "cut", "fx"} {
 		v := v
 		add(func() *rt.Node { return Id(v) })
 	}
@@ -331,8 +333,8 @@ func c01RunSrc(w *run.Worker, src string, report bool) (accepted bool) {
 
 func tailSrc(src string) string {
 	ls := strings.Split(src, "\n")
-	if len(ls) > 13 {
-		return "... (prelude) ...\n" + strings.Join(ls[11:], "\n")
+	if np := len(c01Prelude()); len(ls) > np+2 {
+		return "... (prelude) ...\n" + strings.Join(ls[np:], "\n")
 	}
 	return src
 }
@@ -391,7 +393,7 @@ func c01Run(w *run.Worker) {
 	// (iii): every builtin x every argument shape its checker accepts
 	names := c01BuiltinNames()
 	alpha := c01ArgAlphabet()
-	small := []nodeFn{alpha[0], alpha[3], alpha[10], alpha[15], alpha[20], alpha[23], alpha[44], alpha[47], alpha[50], alpha[53]}
+	small := []nodeFn{alpha[0], alpha[3], alpha[10], alpha[15], alpha[22], alpha[25], alpha[46], alpha[49], alpha[52], alpha[55]}
 	for _, name := range names {
 		var rec func(args []nodeFn, n int, al []nodeFn)
 		rec = func(args []nodeFn, n int, al []nodeFn) {
@@ -425,7 +427,7 @@ func c01Run(w *run.Worker) {
 // index and the stored value to disagree, which takes two steps).
 func c01Sequences(w *run.Worker) {
 	I, S, Id := rt.Int, rt.Str, rt.Id
-	keys := []string{"fi", "ff", "fs", "fb", "fn", "fj", "t1", "message", "nosuch", "s", "l"}
+	keys := []string{"fi", "ff", "fs", "fb", "fn", "fj", "t1", "message", "nosuch", "s", "l", "fx"}
 	var muts []nodeFn
 	for _, a := range keys {
 		a := a
@@ -523,7 +525,7 @@ func init() {
 	run.Register(&run.Check{
 		ID:    "C01",
 		Level: "model_checking",
-		Rule: "prelude binding a variable of every dynamic type, then S in 25 syntactic roles, for S over: 31 atoms (literals incl. extreme ints, variables, point keys of each stored type, a tag, an absent name), " +
+		Rule: "prelude binding a variable of every dynamic type, then S in 25 syntactic roles, for S over: 34 atoms (literals incl. extreme ints, variables incl. strings that are not valid UTF-8, point keys of each stored type incl. an invalid-UTF-8 string, a tag, an absent name), " +
 			"3 unary x atoms, 14 binary x atoms^2 (thorough: all depth-2 trees over 10 type representatives), list/map literals, index chains of depth <=3 over 12 objects x 14 keys, object-less .[i], " +
 			"17 slice objects x 14^3 bounds, attribute expressions; plus every builtin x every argument list of length 0..3 over a 55-candidate alphabet (length 4 over 10) that the real checker accepts; plus every pair (point-mutating builtin call; reader) over 11 keys: 11x10 renames, casts, set_tag, add_key with scalar/list/nil/void values, drop, delete-on-set-measurement, default_time, grok x 15 readers (len, slice, arithmetic, comparison, for-in, index, condition, string builtins, load_json, strfmt, cast, datetime, set_tag, rename, compound assignment); each on 4 input points; " +
 			"oracle: Run returns, no panic, error (if any) carries a position chain whose first entry names the script; distinct = (program, point, outcome class)",
